@@ -796,6 +796,35 @@ func headers(hs http.Header) []Header {
 	return hhs
 }
 
+// multipartParams parses a multipart/form-data body into HAR parameters.
+func multipartParams(body []byte, boundary string) ([]Param, error) {
+	var params []Param
+
+	mpr := multipart.NewReader(bytes.NewReader(body), boundary)
+	for {
+		p, err := mpr.NextPart()
+		if err == io.EOF {
+			return params, nil
+		}
+		if err != nil {
+			return nil, err
+		}
+
+		value, err := ioutil.ReadAll(p)
+		p.Close()
+		if err != nil {
+			return nil, err
+		}
+
+		params = append(params, Param{
+			Name:        p.FormName(),
+			Filename:    p.FileName(),
+			ContentType: p.Header.Get("Content-Type"),
+			Value:       string(value),
+		})
+	}
+}
+
 func postData(req *http.Request, logBody bool) (*PostData, error) {
 	// If the request has no body (no Content-Length and Transfer-Encoding isn't
 	// chunked), skip the post data.
@@ -836,41 +865,30 @@ func postData(req *http.Request, logBody bool) (*PostData, error) {
 		br = httputil.NewChunkedReader(rbr)
 	}
 
+	body, err := ioutil.ReadAll(br)
+	if err != nil {
+		return nil, err
+	}
+
+	// A body that does not parse as what its Content-Type announces is logged
+	// verbatim: failing here would fail the request modifier and make the proxy
+	// alter the request it forwards.
 	switch mt {
 	case "multipart/form-data":
-		mpr := multipart.NewReader(br, ps["boundary"])
-
-		for {
-			p, err := mpr.NextPart()
-			if err == io.EOF {
-				break
-			}
-			if err != nil {
-				return nil, err
-			}
-			defer p.Close()
-
-			body, err := ioutil.ReadAll(p)
-			if err != nil {
-				return nil, err
-			}
-
-			pd.Params = append(pd.Params, Param{
-				Name:        p.FormName(),
-				Filename:    p.FileName(),
-				ContentType: p.Header.Get("Content-Type"),
-				Value:       string(body),
-			})
-		}
-	case "application/x-www-form-urlencoded":
-		body, err := ioutil.ReadAll(br)
+		params, err := multipartParams(body, ps["boundary"])
 		if err != nil {
-			return nil, err
+			log.Errorf("har: cannot parse multipart post data, logging it as text: %v", err)
+			pd.Text = string(body)
+			break
 		}
 
+		pd.Params = append(pd.Params, params...)
+	case "application/x-www-form-urlencoded":
 		vs, err := url.ParseQuery(string(body))
 		if err != nil {
-			return nil, err
+			log.Errorf("har: cannot parse urlencoded post data, logging it as text: %v", err)
+			pd.Text = string(body)
+			break
 		}
 
 		for n, vs := range vs {
@@ -882,11 +900,6 @@ func postData(req *http.Request, logBody bool) (*PostData, error) {
 			}
 		}
 	default:
-		body, err := ioutil.ReadAll(br)
-		if err != nil {
-			return nil, err
-		}
-
 		pd.Text = string(body)
 	}
 
